@@ -199,4 +199,114 @@ theorem c03_nothing_further (p : Params) (bal : List (Nat × Int)) (h t : Nat) (
     have g := step_good s' op hI'
     exact g.1.idInj b' hb' x (g.2.1 x hx' hst) e
 
+-- ---------------------------------------------------------------------------------------------
+-- the winner's total, in terms of the bet record
+
+/-- C03.m  THE WINNER'S TOTAL. In the setting of `c03_settlement_payout`, if the bet WON: in the one `Settle` call that
+    settled it the pool pays the bettor exactly the recorded stake plus the sum of the profits its backing parts
+    promise — `x.amount + Σ f.profit` — and the fee goes from the bet-fee collector to the market creator; no other
+    balance changes. (By `c03_ticket_origin` the promised profits sum to the integer part of
+    (requested stake − fee) × (odds − 1) of the wager that placed the bet.) -/
+theorem c03_winner_total (p : Params) (bal : List (Nat × Int)) (h t : Nat) (ops : List Op) (op : Op) :
+    let s := run (initState p bal h t) ops
+    let s' := (step s op).1
+    ∀ x ∈ s.bets, x.status ≠ BS_SETTLED → ∀ x' ∈ s'.bets, x'.id = x.id → x'.status = BS_SETTLED → x'.result = BR_WON →
+      ∃ (m : Market) (τ τ' : State),
+        getMarket s x.market = some m ∧ m.status = MS_DECLARED ∧ x.odds ∈ m.winners ∧
+        settleBet τ x.creator x.uid = some τ' ∧
+        ∀ a, getBal τ'.bal a = getBal τ.bal a
+              + (if a = x.creator then x.amount + sumProfit x.fulfs else 0) + (if a = m.creator then x.fee else 0)
+              - (if a = ACC_POOL then x.amount + sumProfit x.fulfs else 0) - (if a = ACC_BETFEE then x.fee else 0) := by
+  intro s s' x hx hns x' hx' hid hst hwon
+  obtain ⟨_, m, τ, τ', hm, _, _, _, r1, _, _, hamt, _, _, _, _, hcall, _, hbal⟩ :=
+    c03_settlement_payout p bal h t ops op x hx hns x' hx' hid hst
+  obtain ⟨hd, hw⟩ := r1.mp hwon
+  refine ⟨m, τ, τ', hm, hd, hw, hcall, ?_⟩
+  intro a
+  have := hbal (x.amount + sumProfit x.fulfs) (by rw [if_pos hwon, hamt]) m.creator (by rw [if_pos hd]) a
+  exact this
+
+-- ---------------------------------------------------------------------------------------------
+-- the charge at placement
+
+/-- C03.n  THE CHARGE AT PLACEMENT. Take any reachable state `s` and any operation `op`. If the bet store is longer
+    after `op`, then `op` is a wager — of bettor `c` with uid `u`, requested stake `a` and ticket payload `pl` — that
+    was accepted, and it stored exactly one new record `nb` (every other record is a record of `s`):
+    * `nb` carries uid `u`, the next sequence number, the bettor, market, outcome and odds of the ticket, the current
+      bet fee, status PLACED, result PENDING, and its recorded stake is the sum of the stakes of its backing parts;
+    * the bettor's balance drops by exactly fee + recorded stake, the pool rises by the recorded stake, the bet-fee
+      collector by the fee, and no other balance changes (the equation holds for every account);
+    * if the fee does not exceed the requested stake, the profits the parts promise are non-negative and sum to the
+      integer part of (requested stake − fee) × (odds − 1). -/
+theorem c03_charge_at_placement (p : Params) (bal : List (Nat × Int)) (h t : Nat) (ops : List Op) (op : Op) :
+    let s := run (initState p bal h t) ops
+    let s' := (step s op).1
+    s.bets.length < s'.bets.length →
+    ∃ (c : Nat) (tk : Tk) (u : Nat) (a : Int) (pl : WagerPayload), op = .wager c tk u a pl ∧
+      wagerO s c tk u a pl = some s' ∧
+      ∃ nb ∈ s'.bets, (∀ z ∈ s'.bets, z = nb ∨ z ∈ s.bets) ∧ nb ∉ s.bets ∧
+        nb.uid = u ∧ nb.id = s.bets.length + 1 ∧ nb.creator = c ∧ nb.market = pl.market ∧ nb.odds = pl.odds ∧
+        pl.oddsVal = some nb.oddsVal ∧ nb.fee = s.params.betFee ∧ nb.status = BS_PLACED ∧ nb.result = BR_PENDING ∧
+        nb.amount = sumBet nb.fulfs ∧
+        (∀ acct, getBal s'.bal acct = getBal s.bal acct - (if acct = c then nb.fee + nb.amount else 0)
+            + (if acct = ACC_POOL then nb.amount else 0) + (if acct = ACC_BETFEE then nb.fee else 0)) ∧
+        (nb.fee ≤ a →
+          sumProfit nb.fulfs = ((nb.oddsVal.mulInt (a - nb.fee)).sub (Dec.ofInt (a - nb.fee))).truncInt ∧
+          ∀ f ∈ nb.fulfs, 0 ≤ f.profit) := by
+  intro s s' hlen
+  have hI : BetIdx s := bp_init_betIdx p bal h t ops
+  obtain ⟨c, tk, u, a, pl, hop, hw⟩ := bp_step_grows s op hI hlen
+  refine ⟨c, tk, u, a, pl, hop, hw, ?_⟩
+  obtain ⟨nb, ⟨q1, q2, q3, q4, q5, q6, q7, q8, q9, q10, q11, q12, q13⟩, hmem⟩ := bp_wagerO_placed hw
+  refine ⟨nb, q1, hmem, ?_, q2, by rw [q3, hI.count], q4, q5, q6, q7, q8, q9, q10, q11, ?_, q13⟩
+  · intro hin
+    have := (hI.idLo nb hin).2
+    omega
+  · intro acct
+    rw [q11]
+    exact q12 acct
+
+/-- C03.o  THE TICKET OF EVERY BET. Every bet record `x` of every reachable state was stored by ONE accepted wager of
+    the history: `ops = pre ++ wager :: post`, the wager of bettor `x.creator` with uid `x.uid`, requested stake `a`
+    and payload `pl` was accepted in the state after `pre` and stored the record `nb`; since then the record changed at
+    most in status, result and settlement height. So, for `x` itself: the recorded stake is the sum of the stakes of
+    the backing parts, the bettor was charged exactly `x.fee + x.amount` in that step, and — if the fee did not
+    exceed the requested stake — the promised profits are non-negative and sum to the integer part of
+    (requested stake − fee) × (odds − 1). -/
+theorem c03_ticket_origin (p : Params) (bal : List (Nat × Int)) (h t : Nat) (ops : List Op) (x : Bet) :
+    let s0 := initState p bal h t
+    x ∈ (run s0 ops).bets →
+    ∃ (pre post : List Op) (tk : Tk) (a : Int) (pl : WagerPayload) (nb : Bet),
+      ops = pre ++ Op.wager x.creator tk x.uid a pl :: post ∧
+      wagerO (run s0 pre) x.creator tk x.uid a pl = some (run s0 (pre ++ [Op.wager x.creator tk x.uid a pl])) ∧
+      nb ∈ (run s0 (pre ++ [Op.wager x.creator tk x.uid a pl])).bets ∧
+      x = { nb with status := x.status, result := x.result, settleHeight := x.settleHeight } ∧
+      nb.status = BS_PLACED ∧ nb.result = BR_PENDING ∧
+      x.market = pl.market ∧ x.odds = pl.odds ∧ pl.oddsVal = some x.oddsVal ∧ x.fee = (run s0 pre).params.betFee ∧
+      x.amount = sumBet x.fulfs ∧
+      (∀ acct, getBal (run s0 (pre ++ [Op.wager x.creator tk x.uid a pl])).bal acct =
+          getBal (run s0 pre).bal acct - (if acct = x.creator then x.fee + x.amount else 0)
+            + (if acct = ACC_POOL then x.amount else 0) + (if acct = ACC_BETFEE then x.fee else 0)) ∧
+      (x.fee ≤ a →
+        sumProfit x.fulfs = ((x.oddsVal.mulInt (a - x.fee)).sub (Dec.ofInt (a - x.fee))).truncInt ∧
+        ∀ f ∈ x.fulfs, 0 ≤ f.profit) := by
+  intro s0 hx
+  rcases bp_bet_origin s0 (betIdx_init p bal h t) ops x hx with ⟨b0, hb0, _⟩ | ⟨pre, post, c, tk, u, a, pl, nb, e, hw, hp, hs⟩
+  · cases hb0
+  · obtain ⟨e1, e2, e3, e4, e5, e6, e7, e8, e9⟩ := hs.fields
+    obtain ⟨q1, q2, q3, q4, q5, q6, q7, q8, q9, q10, q11, q12, q13⟩ := hp
+    have hc : c = x.creator := by rw [e3, q4]
+    have hu : u = x.uid := by rw [e1, q2]
+    subst hc
+    subst hu
+    refine ⟨pre, post, tk, a, pl, nb, e, hw, q1, hs, q9, q10, by rw [e4, q5], by rw [e5, q6], by rw [e6]; exact q7,
+      by rw [e8, q8], by rw [e7, e9, q11], ?_, ?_⟩
+    · intro acct
+      rw [e8, e7, q11]
+      exact q12 acct
+    · intro hfee
+      rw [e8, e9, e6]
+      rw [e8] at hfee
+      exact q13 hfee
+
 end Sge.Core
